@@ -242,11 +242,49 @@ def profile_C10(g, tier):
     return scen
 
 
+REMOVABLE = [
+    ("leaves..tutorial_gui", 2),
+    ("leaves..tutorial_gui..client_noop", 2),
+    ("leaves..tutorial_get..explicit_noop", 3),
+    ("leaves..tutorial_gui,leaves..tutorial_get..explicit_noop", 4),
+    ("leaves..tutorial2,leaves..tutorial_gui", 3),
+    ("leaves..tutorial_get", 5),
+    ("leaves..tutorial_finale", 5),
+    ("leaves..tutorial_gui,leaves..tutorial_finale", 5),
+]
+
+
+def profile_C05(g, tier):
+    sels = [s for s in REMOVABLE if s[1] <= (3 if tier == "quick" else 5)]
+    scen = base_scenario(g, selections=sels,
+                         nets=["net1", "net1 net2", "net1 net2 net3", "net1 net2 net3 net4", "net2 net4",
+                               "cluster1.net6 cluster1.net7", "net1 cluster1.net6 cluster1.net7", "net3 net5 net1"],
+                         modes=("lazy", "lazy", "lazy", "eager"))
+    fam = scen["families"]
+    kind = g.pick("kind", ["plain", "plain", "fail", "retry", "populate", "copy", "scope"])
+    scen["kind"] = kind
+    if kind == "fail":
+        fam["p_fail"] = g.pick("p_fail", [0.15, 0.3])
+    elif kind == "retry":
+        fam["p_fail"] = g.pick("p_fail", [0.2, 0.4])
+        fam["statuses"] = ["FAIL", "ERROR"]
+        scen["params"]["max_tries"] = g.pick("max_tries", ["2", "3"])
+    elif kind == "populate":
+        fam["p_pop_shared"] = g.pick("ppop", [0.4, 0.8])
+    elif kind == "copy":
+        scen["params"]["pool_filter"] = "copy"
+        fam["p_pop_shared"] = g.pick("ppop", [0.0, 0.5])
+    elif kind == "scope":
+        scen["params"]["pool_scope"] = g.pick("pool_scope", ["own shared", "own swarm shared"])
+    return scen
+
+
 PROFILES = {
     "C01": profile_C01,
     "C02": profile_C02,
     "C03": profile_C03,
     "C04": profile_C04,
+    "C05": profile_C05,
     "C08": profile_C08,
     "C10": profile_C10,
 }
